@@ -60,6 +60,36 @@ func probe(a arg) (string, string) {
 	return "", ""
 }
 
+// history of depth 2: a rendering must not depend on the rendering made before it
+type histArg struct {
+	S1, S2 uint64
+	F1, F2 int // 0 plain, 1 pretty, 2 pretty HTML, 3 Shorten only
+}
+
+func render(s uint64, f int) string {
+	switch f {
+	case 0:
+		return size.Size(s).String()
+	case 1:
+		return size.Size(s).PrettyString()
+	case 2:
+		return string(size.Size(s).PrettyHTML())
+	}
+	v, u := size.Size(s).Shorten()
+	return fmt.Sprint(v, u)
+}
+
+func probeHist(h histArg) (string, string) {
+	_ = render(h.S1, h.F1)
+	got := render(h.S2, h.F2)
+	wv, wu := oracle.Shorten(h.S2)
+	want := []string{oracle.Decimal(wv) + wu, oracle.Group(wv, " ") + " " + wu, oracle.Group(wv, "&nbsp;") + "&nbsp;" + wu, fmt.Sprint(wv, wu)}[h.F2]
+	if got != want {
+		return "after_previous_call:rendering", fmt.Sprintf("after rendering %d in form %d, rendering %d in form %d gives %q want %q", h.S1, h.F1, h.S2, h.F2, got, want)
+	}
+	return "", ""
+}
+
 func main() {
 	mc.Main("C13", "every value of the stated alphabet (all values below 2^20 (quick) / 2^24 (thorough), odd x 2^k for every k, neighbourhoods of 10^k/1000^k/1024^k/2^63/2^64-1, one value per (unit, digit count) cell) x 4 formats x 5 rendering paths; "+
 		"non-trivial = value is shortened to a unit above B or has more than three digits", func(r *mc.Run) {
@@ -68,6 +98,22 @@ func main() {
 		p := mc.NewProbe(r, "render", nil, probe)
 		r.Assume("reference: math/big division for the maximal 1024^k divisor (k<=6), right-to-left digit grouping")
 		r.Assume("values outside the stated alphabet are not covered; coverage argument: the formatter's control flow depends only on (number of stripped 10-bit groups, digit count), both of which are covered in every feasible combination")
+		ph := mc.NewProbe(r, "history2", nil, probeHist)
+		r.Phase("serial: all histories of two renderings over 10 sizes x 4 forms (the second rendering is judged)", "complete for depth 2 over the listed sizes", func() {
+			hs := []uint64{0, 1, 1023, 1024, 1234567, 1234567 << 10, 5 << 30, 5125, 1 << 60, 18446744073709551615}
+			r.Serial(func(w *mc.W) {
+				for _, a := range hs {
+					for fa := 0; fa < 4; fa++ {
+						for _, b := range hs {
+							for fb := 0; fb < 4; fb++ {
+								w.Point()
+								ph.Do(w, histArg{a, b, fa, fb})
+							}
+						}
+					}
+				}
+			})
+		})
 		dense, neigh := uint64(1<<20), uint64(1000)
 		if !r.Quick() {
 			dense, neigh = 1<<24, 20000
